@@ -662,6 +662,46 @@ def delta_static(plan):
     return p
 
 
+def _has_empty_set(d):
+    k = d[0]
+    if k == "fset":
+        return not d[1]
+    if k in ("list", "tuple"):
+        return any(_has_empty_set(x) for x in d[1])
+    return False
+
+
+def has_empty_set(plan):
+    """an empty set among the static inputs (top level or inside list / tuple; dicts are passed through as is)"""
+    return any(_has_empty_set(d) for s in plan["specs"].values() for d in s["static"])
+
+
+def _fill_sets(d):
+    k = d[0]
+    if k == "fset" and not d[1]:
+        return ["fset", [1]]
+    if k in ("list", "tuple"):
+        return [k, [_fill_sets(x) for x in d[1]]]
+    return d
+
+
+def delta_sets(plan):
+    p = copy.deepcopy(plan)
+    for s in p["specs"].values():
+        s["static"] = [_fill_sets(d) for d in s["static"]]
+    return p
+
+
+def inject_empty_set(rng, plan):
+    p = copy.deepcopy(plan)
+    sh = final_shadow(p)
+    t = rng.choice(sh.order)
+    d = rng.choice([["fset", []], ["list", [["int", 1], ["fset", []]]], ["tuple", [["str", "a"], ["fset", []]]]])
+    st = p["specs"][t]["static"]
+    st.insert(rng.randint(0, len(st)), d)
+    return p
+
+
 def render(plan):
     tasks = {}
     for tid, s in plan["specs"].items():
